@@ -861,6 +861,13 @@ func (s *Sim) NodeOps(node int) int { s.mu.Lock(); defer s.mu.Unlock(); return s
 // Steps returns the number of scheduler decisions taken.
 func (s *Sim) Steps() int { return s.step }
 
+// DisableCrashPoints forgets the crash points that have not fired: the fault phase is over.
+func (s *Sim) DisableCrashPoints() {
+	s.mu.Lock()
+	s.crashAt = map[int]map[int]bool{}
+	s.mu.Unlock()
+}
+
 // Idle advances virtual time by d while running whatever becomes runnable.
 func (s *Sim) Idle(d time.Duration) string { return s.RunUntil(s.Now()+d, nil) }
 
